@@ -28,6 +28,7 @@ CONSTANTS
   MaxTimeout,    \* election timeouts (candidacies started) in a behaviour
   MaxDrop,       \* messages lost
   MaxMisc,       \* lease expiries + followers forgetting their leader
+  MaxDup,        \* requests re-delivered by the network (a copy stays in flight and arrives late)
   MaxAppend, Trailing,
   Features       \* subset of {"prevote","crash","drop","dup","snapshot","transfer","member","client"}
 
@@ -354,6 +355,13 @@ Drop(m) == /\ Has("drop") /\ cnt.drop < MaxDrop /\ msgs' = msgs \ {m}
            /\ cnt' = [cnt EXCEPT !.drop = @ + 1]
            /\ UNCHANGED <<ns, ld, cand, snaps, fsm, fsmBase, leaders, grants>>
 
+\* the network duplicates a request: the copy stays in flight and may be delivered arbitrarily late
+Duplicate(m) ==
+  /\ Has("dup") /\ cnt.dup < MaxDup /\ "copy" \notin DOMAIN m /\ m.mt \in {"ae", "is"} /\ Room(1)
+  /\ msgs' = msgs \cup {[x \in (DOMAIN m) \cup {"copy"} |-> IF x = "copy" THEN 1 ELSE m[x]]}
+  /\ cnt' = [cnt EXCEPT !.dup = @ + 1]
+  /\ UNCHANGED <<ns, ld, cand, snaps, fsm, fsmBase, leaders, grants>>
+
 \* a leader that cannot reach a quorum steps down (lease), abstracted as a free step
 LeaseExpire(n) ==
   /\ ns[n].up /\ ns[n].role = "L" /\ cnt.misc < MaxMisc
@@ -396,7 +404,7 @@ Step ==
   \/ \E m \in msgs : \/ HandleVoteReq(m.dst, m) \/ HandleVoteResp(m.dst, m)
                      \/ HandleAppend(m.dst, m) \/ HandleAppendResp(m.dst, m)
                      \/ HandleInstall(m.dst, m) \/ HandleInstallResp(m.dst, m)
-                     \/ Drop(m)
+                     \/ Drop(m) \/ Duplicate(m)
 
 \* `committed` is a history variable: it accumulates CommittedNow of the state being LEFT
 Next == \E cn \in {CommittedNow} :
